@@ -182,7 +182,7 @@ def check_props(prop_id):
         info["wall_s"] = time.time() - t0
         return info
     # generated tables this property's theorems are stated over: the translator must have succeeded on the CURRENT source (fail-closed)
-    needs = {"C20": ["cli"], "C09": ["dissim", "kernel"], "C02": ["ilp", "kernel"], "C01": ["ilp"], "C08": ["ilp"], "C11": ["ilp"], "C04": ["dissim"], "C05": ["const", "gamma", "pool"], "C06": ["pool"], "C12": ["gamma"], "C07": ["const", "kernel"], "C03": ["kernel"], "C13": ["cont", "shapes"], "C14": ["shapes"], "C17": ["shapes"], "C18": ["shapes"], "C16": ["sampler", "shapes"], "C15": ["stat"], "C10": ["fast"], "C19": ["const", "cst", "shapes"]}.get(prop_id, [])
+    needs = {"C20": ["cli"], "C09": ["dissim", "kernel"], "C02": ["ilp", "kernel"], "C01": ["ilp"], "C08": ["ilp"], "C11": ["ilp"], "C04": ["dissim"], "C05": ["const", "gamma", "pool", "shapes"], "C06": ["pool"], "C12": ["gamma"], "C07": ["const", "kernel"], "C03": ["kernel"], "C13": ["cont", "shapes"], "C14": ["shapes"], "C17": ["shapes"], "C18": ["shapes"], "C16": ["sampler", "shapes"], "C15": ["stat"], "C10": ["fast"], "C19": ["const", "cst", "shapes"]}.get(prop_id, [])
     st = os.path.join(COQ, "gen", "STATUS")
     lines = dict(l.strip().split(" ", 1) for l in open(st) if " " in l.strip()) if os.path.exists(st) else {}
     for g in needs:
@@ -197,7 +197,7 @@ def check_props(prop_id):
         return info
     text = open(src).read()
     info["theorems"] = re.findall(r"^\s*(?:Theorem|Corollary)\s+([A-Za-z0-9_']+)", text, re.M)
-    extras = {"C09": ["genprops/DissimGen.v", "genprops/KernelGen.v"], "C02": ["genprops/IlpGen.v", "genprops/KernelGen.v"], "C01": ["genprops/IlpGen.v"], "C08": ["genprops/IlpGen.v"], "C11": ["genprops/IlpGen.v"], "C04": ["genprops/DissimGen.v"], "C05": ["genprops/GammaGen.v", "genprops/PoolGen.v"], "C06": ["genprops/PoolGen.v"], "C12": ["genprops/GammaGen.v"],
+    extras = {"C09": ["genprops/DissimGen.v", "genprops/KernelGen.v"], "C02": ["genprops/IlpGen.v", "genprops/KernelGen.v"], "C01": ["genprops/IlpGen.v"], "C08": ["genprops/IlpGen.v"], "C11": ["genprops/IlpGen.v"], "C04": ["genprops/DissimGen.v"], "C05": ["genprops/GammaGen.v", "genprops/PoolGen.v", "genprops/ShapesGen.v"], "C06": ["genprops/PoolGen.v"], "C12": ["genprops/GammaGen.v"],
               "C07": ["genprops/KernelGen.v"], "C03": ["genprops/KernelGen.v"], "C13": ["genprops/ContGen.v", "genprops/ShapesGen.v"], "C14": ["genprops/ShapesGen.v"], "C17": ["genprops/ShapesGen.v"], "C18": ["genprops/ShapesGen.v"], "C16": ["genprops/SamplerGen.v", "genprops/ShapesGen.v"], "C19": ["genprops/CstGen.v", "genprops/ShapesGen.v"], "C10": ["genprops/FastGen.v"], "C15": ["genprops/StatGen.v"]}.get(prop_id, [])     # regenerated definitions compiled with (and only with) this property
     info["generated"] = extras
     with tempfile.TemporaryDirectory(prefix="pgaverif_") as d:
